@@ -46,6 +46,10 @@ type Prop struct {
 	// RaceStackPkg (race mode): count a report if both access stacks pass through
 	// this package below pkg/ (default: both innermost frames are Inbucket code).
 	RaceStackPkg string
+	// EvalCounter, if set, names the counter that counts the cases this check evaluates
+	// (e.g. crash images, several per run); evidence reports it as "evaluations" and the
+	// number of runs separately.
+	EvalCounter string
 	// Companions are further properties (same binary) that the check of this
 	// property also runs: other harnesses for clauses of the same statement.
 	Companions []string
